@@ -810,6 +810,9 @@ func knownTime(args []string) string {
 	return ""
 }
 
+// knownReduceEval mirrors the hypothesis `dateSafe` of eval_reduce_partial: the case belongs to the
+// known class iff some = / != node has two operands that evaluate (under all bindings) to strings
+// which both look like dates.
 func knownReduceEval(args []string) string {
 	if len(args) != 3 {
 		return ""
@@ -818,21 +821,25 @@ func knownReduceEval(args []string) string {
 	if err != nil {
 		return ""
 	}
-	n := 0
+	b1, err1 := decBindings(args[1])
+	b2, err2 := decBindings(args[2])
+	if err1 != nil || err2 != nil {
+		return ""
+	}
+	ev := influxql.ValuerEval{Valuer: influxql.MapValuer(bindingsMap(b1, b2)), IntegerFloatDivision: true}
+	isDate := func(v interface{}) bool {
+		s, ok := v.(string)
+		return ok && (&influxql.StringLiteral{Val: s}).IsTimeLiteral()
+	}
+	unsafe := false
 	influxql.WalkFunc(e, func(nd influxql.Node) {
-		if s, ok := nd.(*influxql.StringLiteral); ok && s.IsTimeLiteral() {
-			n++
-		}
-	})
-	for _, a := range args[1:] {
-		bs, _ := decBindings(a)
-		for _, b := range bs {
-			if s, ok := b.val.(string); ok && (&influxql.StringLiteral{Val: s}).IsTimeLiteral() {
-				n++
+		if b, ok := nd.(*influxql.BinaryExpr); ok && (b.Op == influxql.EQ || b.Op == influxql.NEQ) {
+			if isDate(ev.Eval(b.LHS)) && isDate(ev.Eval(b.RHS)) {
+				unsafe = true
 			}
 		}
-	}
-	if n >= 2 {
+	})
+	if unsafe {
 		return dateClass
 	}
 	return ""
@@ -963,7 +970,31 @@ func boundaryValues(k kind) []interface{} {
 	return out
 }
 
+// magnitudes shared by the three number kinds, so that comparisons across kinds meet equal and
+// adjacent values
+var sharedMagnitudes = []uint64{0, 1, 2, 7, 9007199254740992, 9007199254740993, math.MaxInt64 - 1, math.MaxInt64, math.MaxInt64 + 1, math.MaxUint64}
+
 func randValue(r *rand.Rand, k kind) interface{} {
+	if isNum(k) && r.Intn(4) == 0 {
+		m := sharedMagnitudes[r.Intn(len(sharedMagnitudes))]
+		switch k {
+		case kInt:
+			if m <= math.MaxInt64 {
+				if r.Intn(3) == 0 {
+					return -int64(m)
+				}
+				return int64(m)
+			}
+			return int64(math.MinInt64)
+		case kUint:
+			return m
+		default:
+			if r.Intn(4) == 0 {
+				return -float64(m)
+			}
+			return float64(m)
+		}
+	}
 	if r.Intn(3) == 0 {
 		b := boundaryValues(k)
 		return b[r.Intn(len(b))]
@@ -1032,6 +1063,30 @@ type wtGen struct {
 	kind map[string]kind
 }
 
+// magnitudeAs: a shared magnitude (or its neighbour) as a value of the kind.
+func magnitudeAs(r *rand.Rand, k kind, m uint64) interface{} {
+	switch k {
+	case kInt:
+		if m > math.MaxInt64 {
+			return int64(math.MaxInt64)
+		}
+		return int64(m)
+	case kUint:
+		return m
+	}
+	return float64(m)
+}
+
+func (g *wtGen) leafVal(k kind, v interface{}) influxql.Expr {
+	if g.r.Intn(2) == 0 {
+		name := fmt.Sprintf("%c%d", "bifus"[k], len(g.vars))
+		g.vars = append(g.vars, binding{name, v})
+		g.kind[name] = k
+		return &influxql.VarRef{Val: name}
+	}
+	return litOf(v)
+}
+
 func (g *wtGen) leaf(k kind) influxql.Expr {
 	if g.r.Intn(5) < 3 {
 		// variable: reuse one of the kind or make a new one
@@ -1061,7 +1116,18 @@ func (g *wtGen) tree(k kind, depth int) influxql.Expr {
 		op := ops16[g.r.Intn(len(ops16))]
 		l, rk := kind(g.r.Intn(5)), kind(g.r.Intn(5))
 		if res, ok := opType(op, l, rk); ok && res == k {
-			var e influxql.Expr = &influxql.BinaryExpr{Op: op, LHS: g.tree(l, depth-1), RHS: g.tree(rk, depth-1)}
+			var e influxql.Expr
+			if isNum(l) && isNum(rk) && g.r.Intn(4) == 0 {
+				// the same magnitude (or the next one) on both sides, in the two kinds
+				i := g.r.Intn(len(sharedMagnitudes))
+				j := i
+				if g.r.Intn(3) == 0 && i+1 < len(sharedMagnitudes) {
+					j = i + 1
+				}
+				e = &influxql.BinaryExpr{Op: op, LHS: g.leafVal(l, magnitudeAs(g.r, l, sharedMagnitudes[i])), RHS: g.leafVal(rk, magnitudeAs(g.r, rk, sharedMagnitudes[j]))}
+			} else {
+				e = &influxql.BinaryExpr{Op: op, LHS: g.tree(l, depth-1), RHS: g.tree(rk, depth-1)}
+			}
 			for g.r.Intn(3) == 0 {
 				e = &influxql.ParenExpr{Expr: e}
 			}
